@@ -5,8 +5,8 @@
      free b = L ++ [b]
    and the concrete memory always represents (L, H): head = hd L, tail = last L, links complete,
    size = |L|, L and H disjoint and duplicate-free.                                             *)
-From Coq Require Import List ZArith Lia Bool Arith.
-From Shm Require Import Gen.Consts Model.FreeList.
+From Coq Require Import List ZArith Lia Bool Arith Permutation.
+From Shm Require Import Gen.Consts Model.FreeList Proofs.FreeListProofs.
 Import ListNotations.
 Open Scope Z_scope.
 
@@ -105,8 +105,10 @@ Fixpoint spec (L H : list Z) (ops : list fop) : list fres * list Z * list Z :=
 
 Definition idle_with (p : tlocal) (ops : list fop) (H : list Z) (rs : list fres) : Prop :=
   pc p = Idle /\ todo p = ops /\ held p = H /\ res p = rs /\ dead p = false.
-
-Definition op_nochain (o : fop) : bool := match o with FreeChain => false | _ => true end.
+(* an idle thread whose next operation that can start is o (operations that cannot start are dropped
+   by normalize without taking a step) *)
+Definition idle_n (p : tlocal) (o : fop) (r : list fop) (H : list Z) (rs : list fres) : Prop :=
+  pc p = Idle /\ normalize H (todo p) = o :: r /\ held p = H /\ res p = rs /\ dead p = false.
 
 Lemma iter_S k mp : iter (S k) mp = iter k (tstep (fst mp) (snd mp)).
 Proof. reflexivity. Qed.
@@ -115,26 +117,587 @@ Proof. reflexivity. Qed.
 
 (* one step at a time: never let cbn unfold the whole iteration (the stuck conditionals of one step
    would be duplicated into every branch of the next) *)
-Ltac stp := rewrite ?iter_0; try rewrite iter_S;
+Ltac red1 :=
   cbn [tstep fst snd pc todo held res dead lost mk mkh finish normalize enter_loop after_push
        m_size m_head m_tail m_counter m_cpb m_n m_base m_len s_cap s_size s_start s_next s_flag
-       set_size set_head set_tail set_counter set_ssize set_sstart set_snext set_sflag].
+       set_size set_head set_tail set_counter set_ssize set_sstart set_snext set_sflag
+       valid_off stride negb].
+Ltac stp := rewrite ?iter_0; try rewrite iter_S; red1.
+
+Lemma geom_refl_sets : forall m, geom m m.
+Proof. intros; repeat split. Qed.
 
 (* ---- alloc ---- *)
 Lemma alloc_fail m p L H r rs :
-  Rep m L H -> idle_with p (Alloc :: r) H rs -> (length L <= 1)%nat ->
-  exists m' p', iter 3 (m, p) = (m', p') /\ Rep m' L H /\ geom m m' /\ idle_with p' r H (rs ++ [RAlloc None]).
+  Rep m L H -> idle_n p Alloc r H rs -> (length L <= 1)%nat ->
+  exists m' p', iter 3 (m, p) = (m', p') /\ m' = m /\ idle_with p' r H (rs ++ [RAlloc None]).
 Proof.
-  intros R [Hpc [Htd [Hh [Hr Hd]]]] Hlen. destruct p as [pc0 td hd0 rs0 dd ls]; simpl in *; subst.
+  intros R [Hpc [Htd [Hh [Hr Hd]]]] Hlen. destruct p as [pc0 td hd0 rs0 dd ls]; cbn [pc todo held res dead lost] in *; subst.
   pose proof (r_size _ _ _ R) as Hs.
   assert (Hle : (m_size m - 1 <=? 0) = true) by (apply Z.leb_le; lia).
   eexists; eexists. split.
-  - stp. stp. rewrite Hle. stp. stp. reflexivity.
-  - split; [|split].
-    + destruct R; constructor; simpl; auto; try lia.
-      eapply linked_ext; [|eassumption]. intros; split; reflexivity.
+  - stp. rewrite Htd. red1. stp. rewrite Hle. stp. reflexivity.
+  - split.
+    + destruct m; unfold set_size; simpl; f_equal; lia.
+    + repeat split; reflexivity.
+Qed.
+
+Lemma linked_tl m a r : r <> [] -> linked m (a :: r) -> linked m r.
+Proof. destruct r; [congruence|]. intros _ [_ [_ H]]; exact H. Qed.
+
+Lemma alloc_ok m p a b L' H r rs :
+  Rep m (a :: b :: L') H -> idle_n p Alloc r H rs ->
+  exists m' p', iter 13 (m, p) = (m', p') /\ Rep m' (b :: L') (H ++ [a]) /\ geom m m' /\
+                idle_with p' r (H ++ [a]) (rs ++ [RAlloc (Some a)]).
+Proof.
+  intros R [Hpc [Htd [Hh [Hr Hd]]]]. destruct p as [pc0 td hd0 rs0 dd ls]; cbn [pc todo held res dead lost] in *; subst.
+  pose proof (r_size _ _ _ R) as Hs. pose proof (r_head _ _ _ R) as Hhd. pose proof (r_link _ _ _ R) as Hl.
+  cbn [hd length] in Hs, Hhd. cbn [linked] in Hl. destruct Hl as [Hf [Hnx Hl]].
+  destruct (r_valid _ _ _ R a (or_introl eq_refl)) as [Hv Hv2].
+  unfold valid_off, stride in Hv. unfold stride in Hv2.
+  assert (Hle : (m_size m - 1 <=? 0) = false) by (apply Z.leb_gt; lia).
+  assert (Hc : (a + (m_cpb m + c_bufferHeaderSize) <=? m_n m * (m_cpb m + c_bufferHeaderSize)) = true) by (apply Z.leb_le; lia).
+  eexists; eexists. split; [|split; [|split]].
+  - stp. rewrite Htd. red1. rewrite Hhd. stp. rewrite Hle. unfold enter_loop, valid_off, stride. rewrite retry_pos, Hv. red1.
+    stp. rewrite Hf. stp. rewrite Hnx. stp. rewrite Hhd, Z.eqb_refl. red1.
+    stp. stp. rewrite fupd_same. stp. stp. stp. unfold stride; red1. rewrite Hc. stp. stp. stp. red1. reflexivity.
+  - pose proof (r_nd _ _ _ R) as Hnd. cbn [app] in Hnd.
+    assert (Hna : ~ In a ((b :: L') ++ H)) by (inversion Hnd; auto).
+    constructor; cbn [m_size m_head m_tail set_counter set_sflag set_head set_size hd length].
+    + discriminate.
+    + rewrite app_assoc. apply Permutation_NoDup with (l := a :: (b :: L') ++ H); [|exact Hnd].
+      apply Permutation_cons_append.
+    + intros o Ho. rewrite (valid_geom m) by (repeat split; reflexivity).
+      rewrite (stride_geom m) by (repeat split; reflexivity).
+      cbn [m_n set_counter set_sflag set_head set_size].
+      apply (r_valid _ _ _ R). rewrite app_assoc in Ho. apply in_app_or in Ho. destruct Ho as [Ho|[Ho|[]]].
+      * right; exact Ho.
+      * left; auto.
+    + reflexivity.
+    + rewrite (r_tail _ _ _ R). reflexivity.
+    + lia.
+    + eapply linked_ext; [|exact Hl]. intros o Ho. cbn [s_flag s_next set_counter set_sflag set_head set_size].
+      assert (o <> a) by (intros ->; apply Hna; apply in_or_app; left; exact Ho).
+      rewrite !fupd_other by auto. split; reflexivity.
+  - repeat split; reflexivity.
+  - repeat split; reflexivity.
+Qed.
+
+(* ---- free ---- *)
+Lemma last_in (l : list Z) d : l <> [] -> In (last l d) l.
+Proof.
+  intros H. destruct (exists_last H) as [l' [x ->]]. rewrite last_last. apply in_or_app; right; left; reflexivity.
+Qed.
+
+Lemma linked_snoc m m' L b :
+  L <> [] -> linked m L -> NoDup L ->
+  (forall o, In o L -> o <> last L 0 -> s_flag m' o = s_flag m o /\ s_next m' o = s_next m o) ->
+  has_next (s_flag m' (last L 0)) = true -> s_next m' (last L 0) = b -> has_next (s_flag m' b) = false ->
+  linked m' (L ++ [b]).
+Proof.
+  induction L as [|a r IH]; [congruence|]. intros _ Hl Hnd He Hf Hn Hb.
+  destruct r as [|a2 r'].
+  - cbn [app linked last] in *. auto.
+  - change ((a :: a2 :: r') ++ [b]) with (a :: a2 :: (r' ++ [b])).
+    change (last (a :: a2 :: r') 0) with (last (a2 :: r') 0) in *.
+    destruct Hl as [H1 [H2 H3]]. apply NoDup_cons_iff in Hnd; destruct Hnd as [Hna Hnd'].
+    assert (Hne : a <> last (a2 :: r') 0).
+    { intros E. apply Hna. rewrite E. apply last_in. discriminate. }
+    destruct (He a (or_introl eq_refl) Hne) as [Ef En].
+    cbn [linked]. rewrite Ef, En. split; [exact H1|split; [exact H2|]].
+    apply IH; auto; try discriminate. intros o Ho Hno. apply He; auto. right; exact Ho.
+Qed.
+
+Lemma NoDup_app_l (l1 l2 : list Z) : NoDup (l1 ++ l2) -> NoDup l1.
+Proof.
+  induction l1 as [|a l IH]; simpl; intros H; [constructor|].
+  apply NoDup_cons_iff in H. destruct H as [Hn H]. constructor; auto.
+  intros Hi; apply Hn; apply in_or_app; left; exact Hi.
+Qed.
+Lemma NoDup_app_r (l1 l2 : list Z) : NoDup (l1 ++ l2) -> NoDup l2.
+Proof.
+  induction l1 as [|a l IH]; simpl; intros H; auto.
+  apply NoDup_cons_iff in H. destruct H as [_ H]. auto.
+Qed.
+
+Lemma hd_app_ne (l : list Z) x d : l <> [] -> hd d (l ++ [x]) = hd d l.
+Proof. destruct l; [congruence|reflexivity]. Qed.
+
+Lemma push_steps m b L H' td rs ls :
+  Rep m L (b :: H') ->
+  exists m', iter 9 (m, {| pc := PushR2 b None; todo := td; held := H'; res := rs; dead := false; lost := ls |}) =
+     (m', {| pc := Idle; todo := tl td; held := H'; res := rs ++ [RDone]; dead := false; lost := ls |})
+  /\ Rep m' (L ++ [b]) H' /\ geom m m'.
+Proof.
+  intros R. pose proof (r_ne _ _ _ R) as Hne. pose proof (r_tail _ _ _ R) as Ht.
+  pose proof (r_nd _ _ _ R) as Hnd.
+  assert (Hin : In (last L 0) (L ++ b :: H')) by (apply in_or_app; left; apply last_in; exact Hne).
+  destruct (r_valid _ _ _ R _ Hin) as [Hv _]. rewrite <- Ht in Hv. unfold valid_off, stride in Hv.
+  assert (HbL : ~ In b L).
+  { intros Hb. apply NoDup_remove_2 in Hnd. apply Hnd. apply in_or_app; left; exact Hb. }
+  assert (HndL : NoDup L) by (eapply NoDup_app_l; exact Hnd).
+  assert (Hbt : b <> m_tail m) by (rewrite Ht; intros ->; apply HbL, last_in, Hne).
+  eexists. split; [|split].
+  - stp. stp. stp. stp. rewrite Z.eqb_refl. unfold valid_off, stride; red1. rewrite Hv. red1. stp. stp. stp. stp. stp. red1. reflexivity.
+  - constructor; cbn [m_size m_head m_tail set_counter set_sflag set_snext set_tail set_sstart set_size].
+    + destruct L; discriminate.
+    + rewrite <- app_assoc. exact Hnd.
+    + intros o Ho. rewrite (valid_geom m) by (repeat split; reflexivity).
+      rewrite (stride_geom m) by (repeat split; reflexivity).
+      cbn [m_n set_counter set_sflag set_snext set_tail set_sstart set_size].
+      apply (r_valid _ _ _ R). rewrite <- app_assoc in Ho. exact Ho.
+    + rewrite hd_app_ne by exact Hne. apply (r_head _ _ _ R).
+    + rewrite last_last. reflexivity.
+    + rewrite app_length, (r_size _ _ _ R). cbn [length]. lia.
+    + apply (linked_snoc m); auto; try apply (r_link _ _ _ R);
+        cbn [s_flag s_next set_counter set_sflag set_snext set_tail set_sstart set_size]; rewrite <- ?Ht.
+      * intros o Ho Hno. assert (o <> b) by (intros ->; auto).
+        rewrite !fupd_other by auto. split; reflexivity.
+      * rewrite fupd_same. apply has_next_set.
+      * apply fupd_same.
+      * rewrite fupd_other by auto. rewrite fupd_same. apply has_next_zero.
+  - repeat split; reflexivity.
+Qed.
+
+Lemma Rep_perm m L H H2 : Permutation H H2 -> Rep m L H -> Rep m L H2.
+Proof.
+  intros P R. assert (P' : Permutation (L ++ H) (L ++ H2)) by (apply Permutation_app_head; exact P).
+  destruct R; constructor; auto.
+  - eapply Permutation_NoDup; eauto.
+  - intros o Ho. apply r_valid0. eapply Permutation_in; [apply Permutation_sym; exact P'|exact Ho].
+Qed.
+
+Lemma Rep_ssize m L H o v : Rep m L H -> Rep (set_ssize m o v) L H.
+Proof.
+  intros R; destruct R; constructor; auto.
+  eapply linked_ext; [|eassumption]. intros; split; reflexivity.
+Qed.
+
+Lemma free_oldest_ok m p b H' L r rs :
+  Rep m L (b :: H') -> idle_n p FreeOldest r (b :: H') rs ->
+  exists m' p', iter 10 (m, p) = (m', p') /\ Rep m' (L ++ [b]) H' /\ geom m m' /\
+                idle_with p' r H' (rs ++ [RDone]).
+Proof.
+  intros R [Hpc [Htd [Hh [Hr Hd]]]]. destruct p as [pc0 td hd0 rs0 dd ls]; cbn [pc todo held res dead lost] in *; subst.
+  destruct (push_steps (set_ssize m b 0) b L H' (FreeOldest :: r) rs ls (Rep_ssize _ _ _ _ _ R)) as [m' [E [R' G]]].
+  exists m'; eexists. split; [|split; [|split]].
+  - stp. rewrite Htd. red1. exact E.
+  - exact R'.
+  - exact G.
+  - repeat split; reflexivity.
+Qed.
+
+Lemma free_newest_ok m p b H' L r rs :
+  Rep m L (H' ++ [b]) -> idle_n p FreeNewest r (H' ++ [b]) rs ->
+  exists m' p', iter 10 (m, p) = (m', p') /\ Rep m' (L ++ [b]) H' /\ geom m m' /\
+                idle_with p' r H' (rs ++ [RDone]).
+Proof.
+  intros R [Hpc [Htd [Hh [Hr Hd]]]]. destruct p as [pc0 td hd0 rs0 dd ls]; cbn [pc todo held res dead lost] in *; subst.
+  assert (R2 : Rep m L (b :: H')).
+  { eapply Rep_perm; [|exact R]. apply Permutation_sym, Permutation_cons_append. }
+  destruct (push_steps (set_ssize m b 0) b L H' (FreeNewest :: r) rs ls (Rep_ssize _ _ _ _ _ R2)) as [m' [E [R' G]]].
+  exists m'; eexists. split; [|split; [|split]].
+  - stp. rewrite Htd. red1. rewrite last_last, removelast_last. exact E.
+  - exact R'.
+  - exact G.
+  - repeat split; reflexivity.
+Qed.
+
+(* ---- update: writes only to the header of a HELD buffer ---- *)
+Lemma Rep_ext m m' L H :
+  Rep m L H -> geom m m' -> m_size m' = m_size m -> m_head m' = m_head m -> m_tail m' = m_tail m ->
+  (forall o, In o L -> s_flag m' o = s_flag m o /\ s_next m' o = s_next m o) -> Rep m' L H.
+Proof.
+  intros R G Hs Hh Ht He. destruct R; constructor; auto; try congruence.
+  - intros o Ho. rewrite (valid_geom m m' o G), (stride_geom m m' G). destruct G as [-> _]. auto.
+  - eapply linked_ext; eauto.
+Qed.
+
+Lemma update_ok m p b H' L sz lk r rs :
+  Rep m L (b :: H') -> idle_n p (Update sz lk) r (b :: H') rs ->
+  exists k m' p', iter k (m, p) = (m', p') /\ Rep m' L (b :: H') /\ geom m m' /\
+                  idle_with p' r (b :: H') (rs ++ [RDone]).
+Proof.
+  intros R [Hpc [Htd [Hh [Hr Hd]]]]. destruct p as [pc0 td hd0 rs0 dd ls]; cbn [pc todo held res dead lost] in *; subst.
+  assert (HbL : forall o, In o L -> o <> b).
+  { intros o Ho ->. pose proof (r_nd _ _ _ R) as Hnd. apply NoDup_remove_2 in Hnd. apply Hnd. apply in_or_app; left; exact Ho. }
+  assert (Hcase : (lk = true /\ exists b2 H2, H' = b2 :: H2) \/
+                  (if lk then match b :: H' with _ :: b2 :: _ => Some (b2 + m_base m) | _ => None end else None) = None).
+  { destruct lk; [|right; reflexivity]. destruct H' as [|b2 H2]; [right; reflexivity|left; eauto]. }
+  destruct Hcase as [[-> [b2 [H2 ->]]]|Hnone].
+  - exists 5%nat. eexists; eexists. split; [|split; [|split]].
+    + stp. rewrite Htd. red1. stp. stp. stp. stp. red1. reflexivity.
+    + apply (Rep_ext m); auto; try reflexivity; try (repeat split; reflexivity).
+      intros o Ho. cbn [s_flag s_next set_sflag set_snext set_sstart set_ssize].
+      rewrite !fupd_other by (apply HbL; exact Ho). split; reflexivity.
+    + repeat split; reflexivity.
+    + repeat split; reflexivity.
+  - exists 2%nat. eexists; eexists. split; [|split; [|split]].
+    + stp. rewrite Htd. red1. rewrite Hnone. stp. red1. reflexivity.
+    + apply (Rep_ext m); auto; try reflexivity; try (repeat split; reflexivity).
     + repeat split; reflexivity.
     + repeat split; reflexivity.
 Qed.
 
+(* ---------- any operation sequence ---------- *)
+Lemma geom_trans m1 m2 m3 : geom m1 m2 -> geom m2 m3 -> geom m1 m3.
+Proof. unfold geom; intros [A [B [C D]]] [A' [B' [C' D']]]; repeat split; congruence. Qed.
 
+Lemma seq_refine ops : forall m p L H rs,
+  forallb op_nochain ops = true -> Rep m L H ->
+  pc p = Idle -> normalize H (todo p) = normalize H ops -> held p = H -> res p = rs -> dead p = false ->
+  exists k m' p', iter k (m, p) = (m', p') /\ geom m m' /\
+     Rep m' (snd (fst (spec L H ops))) (snd (spec L H ops)) /\
+     pc p' = Idle /\ normalize (held p') (todo p') = [] /\ held p' = snd (spec L H ops) /\
+     res p' = rs ++ fst (fst (spec L H ops)) /\ dead p' = false.
+Proof.
+  induction ops as [|o r IH]; intros m p L H rs Hnc R Hpc Htd Hh Hr Hd.
+  - exists 0%nat, m, p. cbn [spec fst snd iter]. rewrite app_nil_r. rewrite Hh.
+    split; [reflexivity|]. split; [repeat split|]. split; [exact R|]. rewrite Htd. repeat split; auto.
+  - cbn [forallb] in Hnc. apply andb_true_iff in Hnc. destruct Hnc as [Ho Hnc].
+    assert (Hcont : forall k1 m1 p1 x L1 H1,
+               iter k1 (m, p) = (m1, p1) -> Rep m1 L1 H1 -> geom m m1 -> idle_with p1 r H1 (rs ++ [x]) ->
+               exists k m' p', iter k (m, p) = (m', p') /\ geom m m' /\
+                 Rep m' (snd (fst (spec L1 H1 r))) (snd (spec L1 H1 r)) /\
+                 pc p' = Idle /\ normalize (held p') (todo p') = [] /\ held p' = snd (spec L1 H1 r) /\
+                 res p' = rs ++ x :: fst (fst (spec L1 H1 r)) /\ dead p' = false).
+    { intros k1 m1 p1 x L1 H1 E1 R1 G1 [I1 [I2 [I3 [I4 I5]]]].
+      destruct (IH m1 p1 L1 H1 (rs ++ [x]) Hnc R1 I1 ltac:(rewrite I2; reflexivity) I3 I4 I5)
+        as [k2 [m2 [p2 [E2 [G2 [R2 [J1 [J2 [J3 [J4 J5]]]]]]]]]].
+      exists (k1 + k2)%nat, m2, p2. rewrite iter_add, E1, E2.
+      rewrite <- app_assoc in J4. cbn [app] in J4.
+      split; [reflexivity|]. split; [eapply geom_trans; eauto|]. split; [exact R2|]. repeat split; auto. }
+    destruct o; cbn [op_nochain] in Ho; try discriminate.
+    + (* Alloc *)
+      assert (Hn : idle_n p Alloc r H rs) by (repeat split; auto).
+      destruct L as [|a [|b L']].
+      * exfalso. apply (r_ne _ _ _ R). reflexivity.
+      * destruct (alloc_fail m p [a] H r rs R Hn ltac:(cbn [length]; lia)) as [m1 [p1 [E1 [-> I1]]]].
+        destruct (Hcont 3%nat m p1 (RAlloc None) [a] H E1 R ltac:(repeat split; reflexivity) I1)
+          as [k [m' [p' Hx]]].
+        exists k, m', p'. cbn [spec spec_op].
+        destruct (spec [a] H r) as [[xs L2] H2]. cbn [fst snd] in *. exact Hx.
+      * destruct (alloc_ok m p a b L' H r rs R Hn) as [m1 [p1 [E1 [R1 [G1 I1]]]]].
+        destruct (Hcont 13%nat m1 p1 (RAlloc (Some a)) (b :: L') (H ++ [a]) E1 R1 G1 I1)
+          as [k [m' [p' Hx]]].
+        exists k, m', p'. cbn [spec spec_op].
+        destruct (spec (b :: L') (H ++ [a]) r) as [[xs L2] H2]. cbn [fst snd] in *. exact Hx.
+    + (* FreeOldest *)
+      destruct H as [|b H'].
+      * cbn [normalize] in Htd. cbn [spec]. apply IH; auto.
+      * assert (Hn : idle_n p FreeOldest r (b :: H') rs) by (repeat split; auto).
+        destruct (free_oldest_ok m p b H' L r rs R Hn) as [m1 [p1 [E1 [R1 [G1 I1]]]]].
+        destruct (Hcont 10%nat m1 p1 RDone (L ++ [b]) H' E1 R1 G1 I1) as [k [m' [p' Hx]]].
+        exists k, m', p'. cbn [spec spec_op hd tl].
+        destruct (spec (L ++ [b]) H' r) as [[xs L2] H2]. cbn [fst snd] in *. exact Hx.
+    + (* FreeNewest *)
+      destruct H as [|b0 H0].
+      * cbn [normalize] in Htd. cbn [spec]. apply IH; auto.
+      * destruct (@exists_last _ (b0 :: H0) ltac:(discriminate)) as [H' [b E]].
+        assert (Hn : idle_n p FreeNewest r (H' ++ [b]) rs).
+        { rewrite <- E. repeat split; auto. }
+        rewrite E in R.
+        destruct (free_newest_ok m p b H' L r rs R Hn) as [m1 [p1 [E1 [R1 [G1 I1]]]]].
+        destruct (Hcont 10%nat m1 p1 RDone (L ++ [b]) H' E1 R1 G1 I1) as [k [m' [p' Hx]]].
+        exists k, m', p'. cbn [spec spec_op]. rewrite E, last_last, removelast_last.
+        destruct (spec (L ++ [b]) H' r) as [[xs L2] H2]. cbn [fst snd] in *. exact Hx.
+    + (* Update *)
+      destruct H as [|b H'].
+      * cbn [normalize] in Htd. cbn [spec]. apply IH; auto.
+      * assert (Hn : idle_n p (Update sz link) r (b :: H') rs) by (repeat split; auto).
+        destruct (update_ok m p b H' L sz link r rs R Hn) as [k1 [m1 [p1 [E1 [R1 [G1 I1]]]]]].
+        destruct (Hcont k1 m1 p1 RDone L (b :: H') E1 R1 G1 I1) as [k [m' [p' Hx]]].
+        exists k, m', p'. cbn [spec spec_op].
+        destruct (spec L (b :: H') r) as [[xs L2] H2]. cbn [fst snd] in *. exact Hx.
+Qed.
+
+(* ---------- the initial list ---------- *)
+Definition slots0 (n : nat) (st : Z) : list Z := map (fun i => Z.of_nat i * st) (seq 0 n).
+Definition L0 (n cpb : Z) : list Z := slots0 (Z.to_nat n) (cpb + c_bufferHeaderSize).
+
+Lemma hdr_pos : 0 < c_bufferHeaderSize.
+Proof. reflexivity. Qed.
+Lemma has_next_flag : has_next c_hasNextBufferFlag = true.
+Proof. vm_compute. reflexivity. Qed.
+
+Lemma init_linked n cpb base len (N : nat) : n = Z.of_nat N -> 0 < cpb + c_bufferHeaderSize ->
+  forall k j, (j + S k = N)%nat ->
+  linked (init_mem n cpb base len) (map (fun i => Z.of_nat i * (cpb + c_bufferHeaderSize)) (seq j (S k))).
+Proof.
+  intros Hn Hst. induction k as [|k IH]; intros j Hj.
+  - cbn [seq map linked init_mem s_flag].
+    assert (E : (Z.of_nat j * (cpb + c_bufferHeaderSize) <? (n - 1) * (cpb + c_bufferHeaderSize)) = false).
+    { apply Z.ltb_ge. apply Z.mul_le_mono_nonneg_r; lia. }
+    rewrite E. apply has_next_zero.
+  - change (seq j (S (S k))) with (j :: seq (S j) (S k)). cbn [map].
+    specialize (IH (S j) ltac:(lia)). cbn [seq map] in IH.
+    cbn [linked seq map]. cbn [init_mem s_flag s_next].
+    assert (E : (Z.of_nat j * (cpb + c_bufferHeaderSize) <? (n - 1) * (cpb + c_bufferHeaderSize)) = true).
+    { apply Z.ltb_lt. apply Z.mul_lt_mono_pos_r; lia. }
+    rewrite E. split; [apply has_next_flag|]. split; [lia|]. exact IH.
+Qed.
+
+Lemma slot_inj st : 0 < st -> forall i j : nat, Z.of_nat i * st = Z.of_nat j * st -> i = j.
+Proof. intros Hst i j E. apply Z.mul_cancel_r in E; lia. Qed.
+
+Lemma slots0_nodup N st : 0 < st -> NoDup (slots0 N st).
+Proof.
+  intros Hst. unfold slots0. generalize 0%nat. induction N as [|N IH]; intros j; cbn [seq map]; constructor.
+  - intros Hi. apply in_map_iff in Hi. destruct Hi as [i [E Hi]]. apply slot_inj in E; auto.
+    apply in_seq in Hi. lia.
+  - apply IH.
+Qed.
+
+Lemma slots0_in N st o : In o (slots0 N st) <-> exists i, (i < N)%nat /\ o = Z.of_nat i * st.
+Proof.
+  unfold slots0. rewrite in_map_iff. split.
+  - intros [i [E Hi]]. apply in_seq in Hi. exists i; split; [lia|auto].
+  - intros [i [Hi E]]. exists i; split; auto. apply in_seq. lia.
+Qed.
+
+Lemma init_rep n cpb base len : 1 <= n -> 0 <= cpb -> Rep (init_mem n cpb base len) (L0 n cpb) [].
+Proof.
+  intros Hn Hc. pose proof hdr_pos as Hh. unfold L0.
+  remember (Z.to_nat n) as N. assert (HN : n = Z.of_nat N) by lia.
+  destruct N as [|k]; [lia|].
+  set (st := cpb + c_bufferHeaderSize). assert (Hst : 0 < st) by (unfold st; lia).
+  constructor.
+  - unfold slots0. cbn [seq map]. discriminate.
+  - rewrite app_nil_r. apply slots0_nodup; exact Hst.
+  - intros o Ho. rewrite app_nil_r in Ho. apply slots0_in in Ho. destruct Ho as [i [Hi ->]].
+    unfold valid_off, stride. cbn [init_mem m_n m_cpb]. fold st.
+    assert (Z.of_nat i * st + st <= n * st) by nia.
+    split; [|lia]. apply andb_true_iff; split; apply Z.leb_le; [nia|unfold st in *; lia].
+  - reflexivity.
+  - unfold slots0. rewrite seq_S, map_app. cbn [map]. rewrite last_last. cbn [init_mem m_tail Nat.add].
+    fold st. f_equal. lia.
+  - unfold slots0. rewrite map_length, seq_length. cbn [init_mem m_size]. exact HN.
+  - unfold slots0. apply (init_linked n cpb base len (S k)); auto.
+Qed.
+
+(* ---------- the abstract specification keeps the set of slots ---------- *)
+Lemma spec_perm ops : forall L H, Permutation (snd (fst (spec L H ops)) ++ snd (spec L H ops)) (L ++ H).
+Proof.
+  induction ops as [|o r IH]; intros L H; [reflexivity|].
+  assert (Hstep : forall x L1 H1, Permutation (L1 ++ H1) (L ++ H) ->
+            Permutation (snd (fst (let '(xs, L'', H'') := spec L1 H1 r in (x :: xs, L'', H''))) ++
+                         snd (let '(xs, L'', H'') := spec L1 H1 r in (x :: xs, L'', H''))) (L ++ H)).
+  { intros x L1 H1 P. specialize (IH L1 H1). destruct (spec L1 H1 r) as [[xs L2] H2]. cbn [fst snd] in *.
+    eapply Permutation_trans; eauto. }
+  destruct o.
+  - cbn [spec spec_op]. destruct L as [|a [|b L']]; try (apply Hstep; reflexivity).
+    apply Hstep. rewrite app_assoc. cbn [app].
+    apply Permutation_sym. apply (Permutation_cons_append ((b :: L') ++ H) a).
+  - destruct H as [|b H']; [apply IH|]. cbn [spec spec_op hd tl]. apply Hstep.
+    rewrite <- app_assoc. reflexivity.
+  - destruct H as [|b0 H0]; [apply IH|]. cbn [spec spec_op].
+    destruct (@exists_last _ (b0 :: H0) ltac:(discriminate)) as [H' [b E]].
+    assert (El : last (b0 :: H0) 0 = b) by (rewrite E; apply last_last).
+    assert (Er : removelast (b0 :: H0) = H') by (rewrite E; apply removelast_last).
+    rewrite El, Er. apply Hstep. rewrite E, <- app_assoc.
+    apply Permutation_app_head. apply Permutation_cons_append.
+  - destruct H as [|b H']; [apply IH|]. cbn [spec spec_op]. apply Hstep. reflexivity.
+  - destruct H as [|b H']; [apply IH|]. cbn [spec spec_op]. apply Hstep. reflexivity.
+Qed.
+
+(* ---------- observers shared with the property files ---------- *)
+Fixpoint nodupb (l : list Z) : bool :=
+  match l with [] => true | x :: r => negb (existsb (Z.eqb x) r) && nodupb r end.
+Definition finished (p : tlocal) : bool :=
+  match pc p, normalize (held p) (todo p) with Idle, [] => true | _, _ => false end.
+Definition chain_whole (m : mem) : bool :=
+  let w := walk m (m_head m) (S (Z.to_nat (m_n m))) in
+  (Z.of_nat (length w) =? m_n m) && nodupb w && forallb (is_slot m) w && (last w (-1) =? m_tail m).
+
+Lemma nodupb_true l : NoDup l -> nodupb l = true.
+Proof.
+  induction 1 as [|x l Hn Hnd IH]; cbn [nodupb]; auto. rewrite IH, andb_true_r.
+  apply negb_true_iff. destruct (existsb (Z.eqb x) l) eqn:E; auto.
+  apply existsb_exists in E. destruct E as [y [Hy E]]. apply Z.eqb_eq in E. subst. contradiction.
+Qed.
+
+Lemma walk_linked m L : forall fuel,
+  L <> [] -> linked m L -> (forall o, In o L -> valid_off m o = true) -> (length L <= fuel)%nat ->
+  walk m (hd 0 L) fuel = L.
+Proof.
+  induction L as [|a r IH]; intros fuel Hne Hl Hv Hlen; [congruence|].
+  destruct fuel as [|f]; [cbn [length] in Hlen; lia|].
+  cbn [walk hd]. rewrite (Hv a (or_introl eq_refl)). destruct r as [|b r'].
+  - cbn [linked] in Hl. rewrite Hl. reflexivity.
+  - destruct Hl as [H1 [H2 H3]]. rewrite H1, H2. f_equal.
+    apply (IH f); auto; try discriminate.
+    + intros o Ho. apply Hv. right; exact Ho.
+    + cbn [length] in *. lia.
+Qed.
+
+(* a finished thread takes no further steps (its state is a fixpoint up to the dropped operations) *)
+Lemma finished_step m p : finished p = true ->
+  exists p', tstep m p = (m, p') /\ finished p' = true /\ held p' = held p /\ res p' = res p /\ pc p' = Idle.
+Proof.
+  unfold finished. destruct p as [pc0 td hd0 rs0 dd ls]. cbn [pc todo held].
+  destruct pc0; try discriminate. destruct (normalize hd0 td) eqn:E; try discriminate. intros _.
+  eexists. split.
+  - unfold tstep. cbn [pc todo held res dead lost]. rewrite E. reflexivity.
+  - cbn [pc todo held res]. destruct hd0; repeat split; reflexivity.
+Qed.
+
+Lemma finished_iter k : forall m p, finished p = true ->
+  exists p', iter k (m, p) = (m, p') /\ finished p' = true /\ held p' = held p /\ res p' = res p.
+Proof.
+  induction k as [|k IH]; intros m p Hf.
+  - exists p; repeat split; auto.
+  - destruct (finished_step m p Hf) as [p1 [E1 [F1 [A1 [B1 _]]]]].
+    destruct (IH m p1 F1) as [p2 [E2 [F2 [A2 B2]]]].
+    exists p2. rewrite iter_S. cbn [fst snd]. rewrite E1, E2. repeat split; auto; congruence.
+Qed.
+
+Lemma iter_finished_agree k1 k2 x m1 p1 m2 p2 :
+  iter k1 x = (m1, p1) -> finished p1 = true -> iter k2 x = (m2, p2) -> finished p2 = true ->
+  m1 = m2 /\ held p1 = held p2 /\ res p1 = res p2.
+Proof.
+  assert (W : forall k1 k2 m1 p1 m2 p2, (k1 <= k2)%nat ->
+    iter k1 x = (m1, p1) -> finished p1 = true -> iter k2 x = (m2, p2) ->
+    m1 = m2 /\ held p1 = held p2 /\ res p1 = res p2).
+  { clear. intros k1 k2 m1 p1 m2 p2 Hle E1 F1 E2.
+    replace k2 with (k1 + (k2 - k1))%nat in E2 by lia. rewrite iter_add, E1 in E2.
+    destruct (finished_iter (k2 - k1) m1 p1 F1) as [p' [E' [_ [A B]]]]. rewrite E' in E2.
+    inversion E2; subst. auto. }
+  intros E1 F1 E2 F2. destruct (Nat.le_ge_cases k1 k2) as [Hle|Hle].
+  - eapply W; eauto.
+  - destruct (W k2 k1 m2 p2 m1 p1 Hle E2 F2 E1) as [A [B C]]. auto.
+Qed.
+
+(* ---------- main theorems: one thread, any operation sequence ---------- *)
+Definition p_init (ops : list fop) : tlocal :=
+  {| pc := Idle; todo := ops; held := []; res := []; dead := false; lost := 0 |}.
+
+Lemma seq_run_eq n cpb base len ops k :
+  run (repeat O k) (init n cpb base len [ops]) =
+  {| mm := fst (iter k (init_mem n cpb base len, p_init ops));
+     thr := [snd (iter k (init_mem n cpb base len, p_init ops))] |}.
+Proof. unfold init. cbn [map]. apply run_single. Qed.
+
+Lemma seq_complete n cpb base len ops :
+  1 <= n -> 0 <= cpb -> forallb op_nochain ops = true ->
+  exists k m' p', iter k (init_mem n cpb base len, p_init ops) = (m', p') /\ finished p' = true /\
+     geom (init_mem n cpb base len) m' /\
+     Rep m' (snd (fst (spec (L0 n cpb) [] ops))) (snd (spec (L0 n cpb) [] ops)) /\
+     held p' = snd (spec (L0 n cpb) [] ops) /\ res p' = fst (fst (spec (L0 n cpb) [] ops)).
+Proof.
+  intros Hn Hc Hnc.
+  destruct (seq_refine ops (init_mem n cpb base len) (p_init ops) (L0 n cpb) [] [] Hnc
+              (init_rep n cpb base len Hn Hc) eq_refl eq_refl eq_refl eq_refl eq_refl)
+    as [k [m' [p' [E [G [R [A [B [C [D _]]]]]]]]]].
+  exists k, m', p'. split; [exact E|]. split; [unfold finished; rewrite A, B; reflexivity|].
+  repeat (split; [assumption|]). exact D.
+Qed.
+
+(* termination: the single-thread run completes *)
+Theorem seq_terminates n cpb base len ops :
+  1 <= n -> 0 <= cpb -> forallb op_nochain ops = true ->
+  exists k, forallb finished (thr (run (repeat O k) (init n cpb base len [ops]))) = true.
+Proof.
+  intros Hn Hc Hnc. destruct (seq_complete n cpb base len ops Hn Hc Hnc) as [k [m' [p' [E [F _]]]]].
+  exists k. rewrite seq_run_eq, E. cbn [thr snd forallb]. rewrite F. reflexivity.
+Qed.
+
+(* functional correctness: whenever the run has completed, the results are those of the abstract FIFO
+   and the memory represents the abstract state *)
+Theorem seq_functional n cpb base len ops k :
+  1 <= n -> 0 <= cpb -> forallb op_nochain ops = true ->
+  let s := run (repeat O k) (init n cpb base len [ops]) in
+  forallb finished (thr s) = true ->
+  map res (thr s) = [fst (fst (spec (L0 n cpb) [] ops))] /\
+  all_held s = snd (spec (L0 n cpb) [] ops) /\
+  Rep (mm s) (snd (fst (spec (L0 n cpb) [] ops))) (snd (spec (L0 n cpb) [] ops)) /\
+  geom (init_mem n cpb base len) (mm s).
+Proof.
+  intros Hn Hc Hnc s. unfold s. rewrite seq_run_eq.
+  destruct (iter k (init_mem n cpb base len, p_init ops)) as [mk pk] eqn:Ek.
+  cbn [thr mm fst snd forallb map]. rewrite andb_true_r. intros Fk.
+  destruct (seq_complete n cpb base len ops Hn Hc Hnc) as [k0 [m' [p' [E [F [G [R [A B]]]]]]]].
+  destruct (iter_finished_agree k k0 _ mk pk m' p' Ek Fk E F) as [-> [Hh Hr]].
+  unfold all_held. cbn [thr flat_map]. rewrite app_nil_r, Hh, Hr, A, B. auto.
+Qed.
+
+Lemma is_slot_geom m0 m o : geom m0 m -> is_slot m o = is_slot m0 o.
+Proof. intros G. unfold is_slot. rewrite (stride_geom m0 m G). destruct G as [-> _]. reflexivity. Qed.
+
+Lemma L0_is_slot n cpb base len o : 0 <= cpb -> In o (L0 n cpb) -> is_slot (init_mem n cpb base len) o = true.
+Proof.
+  intros Hc Ho. pose proof hdr_pos. apply slots0_in in Ho. destruct Ho as [i [Hi ->]].
+  unfold is_slot, stride. cbn [init_mem m_n m_cpb]. set (st := cpb + c_bufferHeaderSize).
+  assert (0 < st) by (unfold st; lia).
+  rewrite Z_mod_mult, Z.eqb_refl, andb_true_r. apply andb_true_iff; split; [apply Z.leb_le|apply Z.ltb_lt]; nia.
+Qed.
+
+Lemma L0_length n cpb : 0 <= n -> Z.of_nat (length (L0 n cpb)) = n.
+Proof. intros. unfold L0, slots0. rewrite map_length, seq_length. lia. Qed.
+
+(* (i) C01 sequentially: no buffer is held twice and every buffer handed out is a slot of the region *)
+Theorem seq_no_double_ownership n cpb base len ops k :
+  1 <= n -> 0 <= cpb -> forallb op_nochain ops = true ->
+  let s := run (repeat O k) (init n cpb base len [ops]) in
+  forallb finished (thr s) = true ->
+  nodupb (all_held s) = true /\ forallb (is_slot (mm s)) (all_held s) = true.
+Proof.
+  intros Hn Hc Hnc s Hf. destruct (seq_functional n cpb base len ops k Hn Hc Hnc Hf) as [_ [Hh [R G]]].
+  fold s in Hh, R, G. rewrite Hh. split.
+  - apply nodupb_true. eapply NoDup_app_r. apply (r_nd _ _ _ R).
+  - apply forallb_forall. intros o Ho. rewrite (is_slot_geom _ _ o G). apply L0_is_slot; auto.
+    assert (Hin : In o (L0 n cpb ++ [])).
+    { eapply Permutation_in; [apply spec_perm|]. apply in_or_app; right; exact Ho. }
+    rewrite app_nil_r in Hin. exact Hin.
+Qed.
+
+(* (ii) the last slot is never handed out: the list never becomes empty, the free count is its length,
+   and an allocation that fails leaves the memory exactly as it found it (alloc_fail above) *)
+Theorem seq_never_last n cpb base len ops k :
+  1 <= n -> 0 <= cpb -> forallb op_nochain ops = true ->
+  let s := run (repeat O k) (init n cpb base len [ops]) in
+  forallb finished (thr s) = true ->
+  1 <= m_size (mm s) /\ m_size (mm s) + Z.of_nat (length (all_held s)) = n.
+Proof.
+  intros Hn Hc Hnc s Hf. destruct (seq_functional n cpb base len ops k Hn Hc Hnc Hf) as [_ [Hh [R G]]].
+  fold s in Hh, R, G. rewrite Hh, (r_size _ _ _ R).
+  pose proof (Permutation_length (spec_perm ops (L0 n cpb) [])) as Hl.
+  rewrite !app_length in Hl. cbn [length] in Hl. pose proof (L0_length n cpb ltac:(lia)).
+  pose proof (r_ne _ _ _ R) as Hne. destruct (snd (fst (spec (L0 n cpb) [] ops))); [congruence|].
+  cbn [length] in *. lia.
+Qed.
+
+Theorem seq_failed_alloc_restores m p L H r rs :
+  Rep m L H -> idle_n p Alloc r H rs -> (length L <= 1)%nat ->
+  exists p', iter 3 (m, p) = (m, p') /\ idle_with p' r H (rs ++ [RAlloc None]).
+Proof. intros R I Hl. destruct (alloc_fail m p L H r rs R I Hl) as [m' [p' [E [-> I']]]]. eauto. Qed.
+
+Lemma last_indep (l : list Z) d d' : l <> [] -> last l d = last l d'.
+Proof. intros H. destruct (exists_last H) as [l' [x ->]]. rewrite !last_last. reflexivity. Qed.
+
+(* (iii) C02 sequentially: when everything has been freed the free count is the capacity and the walk
+   from head visits every slot exactly once and ends at tail *)
+Theorem seq_quiescent_whole n cpb base len ops k :
+  1 <= n -> 0 <= cpb -> forallb op_nochain ops = true ->
+  let s := run (repeat O k) (init n cpb base len [ops]) in
+  forallb finished (thr s) = true -> all_held s = [] ->
+  m_size (mm s) = n /\ chain_whole (mm s) = true.
+Proof.
+  intros Hn Hc Hnc s Hf He.
+  destruct (seq_functional n cpb base len ops k Hn Hc Hnc Hf) as [_ [Hh [R G]]].
+  fold s in Hh, R, G. rewrite He in Hh.
+  pose proof (spec_perm ops (L0 n cpb) []) as P. rewrite <- Hh in *. rewrite !app_nil_r in P.
+  set (L := snd (fst (spec (L0 n cpb) [] ops))) in *.
+  assert (Hlen : Z.of_nat (length L) = n).
+  { rewrite (Permutation_length P). apply L0_length. lia. }
+  assert (Hmn : m_n (mm s) = n) by (destruct G as [-> _]; reflexivity).
+  split; [rewrite (r_size _ _ _ R); exact Hlen|].
+  unfold chain_whole. rewrite (r_head _ _ _ R).
+  rewrite (walk_linked (mm s) L); try apply R.
+  - rewrite Hlen, Hmn, Z.eqb_refl. cbn [andb].
+    rewrite nodupb_true by (pose proof (r_nd _ _ _ R) as X; rewrite app_nil_r in X; exact X). cbn [andb].
+    rewrite (last_indep L (-1) 0) by apply R. rewrite (r_tail _ _ _ R), Z.eqb_refl, andb_true_r.
+    apply forallb_forall. intros o Ho. rewrite (is_slot_geom _ _ o G). apply L0_is_slot; auto.
+    eapply Permutation_in; eauto.
+  - intros o Ho. apply (r_valid _ _ _ R). apply in_or_app; left; exact Ho.
+  - rewrite Hmn. lia.
+Qed.
